@@ -227,6 +227,13 @@ impl Float {
             return self.clone();
         }
 
+        // Scaling by more than the distance between the smallest subnormal
+        // and the largest finite value can't change the rounded result, so
+        // clamp the scale to keep the exponent arithmetic within i64.
+        let (lower, upper) = self.get_exp_bounds();
+        let span = upper - lower + self.get_semantics().get_precision() as i64 + 1;
+        let scale = scale.clamp(-span, span);
+
         let mut r = Self::new(
             self.get_semantics(),
             self.get_sign(),
